@@ -23,6 +23,7 @@ import (
 	"os"
 	"os/exec"
 	"runtime"
+	"runtime/debug"
 	"strings"
 	"sync"
 	"time"
@@ -473,6 +474,7 @@ func runStress(k int, sc Scn, r *vh.Rand) (res Res) {
 	}
 	var (
 		dbl, snd, other int
+		sndStack        string
 		mu              sync.Mutex
 		notClosed       int
 		stillListed     int
@@ -487,6 +489,9 @@ func runStress(k int, sc Scn, r *vh.Rand) (res Res) {
 					dbl++
 				case strings.Contains(m, "send on closed channel"):
 					snd++
+					if sndStack == "" {
+						sndStack = string(debug.Stack())
+					}
 				default:
 					other++
 					if res.PanicMsg == "" {
@@ -557,6 +562,9 @@ func runStress(k int, sc Scn, r *vh.Rand) (res Res) {
 	res.Extra["pairs"] = sc.Pairs
 	res.Extra["close-of-closed-channel"] = dbl
 	res.Extra["send-on-closed-channel"] = snd
+	if sndStack != "" {
+		res.PanicMsg = sndStack
+	}
 	if dbl > 0 {
 		res.Panic = true
 		res.Fails = append(res.Fails, failRec{fmt.Sprintf("%d 'close of closed channel' panic(s) in %d racing groups of %d concurrent SvShutdown notices through receiveSingle (variant %q)", dbl, sc.Pairs, n, sc.Variant), "double-close-ch"})
